@@ -2,14 +2,6 @@
 #[cfg(kani)]
 mod util;
 #[cfg(kani)]
-mod c09;
+mod c04;
 #[cfg(kani)]
-mod c07;
-#[cfg(kani)]
-mod c10;
-#[cfg(kani)]
-mod c11;
-#[cfg(kani)]
-mod c13;
-#[cfg(kani)]
-mod c17;
+mod c12;
